@@ -191,6 +191,62 @@ func fillColor(r *rand.Rand, m *image.NRGBA, class string) {
 				}
 			}
 		}
+	case class == "flatpatch":
+		// (not in Classes) noise or texture with one flat patch of 2x2 .. 3x2 macroblocks, macroblock
+		// aligned: only the patch's inner macroblocks are predicted exactly, so a handful of macroblocks
+		// (1..2 of the whole frame) code no coefficients at all.
+		tex := r.Intn(2) == 0
+		for y := 0; y < h; y++ {
+			for x := 0; x < w; x++ {
+				if tex {
+					v := uint8(128 + 100*tri(float64(x)*0.9+float64(y)*0.37) + float64(r.Intn(30)))
+					set(x, y, color.NRGBA{v, uint8(255 - int(v)), uint8(r.Intn(256)), 255})
+				} else {
+					set(x, y, color.NRGBA{uint8(r.Intn(256)), uint8(r.Intn(256)), uint8(r.Intn(256)), 255})
+				}
+			}
+		}
+		pw, ph := 32+16*r.Intn(2), 32
+		if r.Intn(2) == 0 {
+			pw, ph = ph, pw
+		}
+		if w >= pw && h >= ph {
+			bx, by := 16*r.Intn((w-pw)/16+1), 16*r.Intn((h-ph)/16+1)
+			flat := color.NRGBA{uint8(r.Intn(256)), uint8(r.Intn(256)), uint8(r.Intn(256)), 255}
+			for y := by; y < by+ph; y++ {
+				for x := bx; x < bx+pw; x++ {
+					set(x, y, flat)
+				}
+			}
+		}
+	case class == "sparsemb":
+		// (not in Classes) one flat colour with 1..3 isolated busy macroblocks: nearly every macroblock is
+		// skipped, the few coded ones lie far apart in coding order and have unrelated token statistics.
+		flat := color.NRGBA{uint8(r.Intn(256)), uint8(r.Intn(256)), uint8(r.Intn(256)), 255}
+		for y := 0; y < h; y++ {
+			for x := 0; x < w; x++ {
+				set(x, y, flat)
+			}
+		}
+		for k := 0; k < 1+r.Intn(3); k++ {
+			bx, by := 16*r.Intn((w+15)/16), 16*r.Intn((h+15)/16)
+			kind := r.Intn(3)
+			amp := 8 + r.Intn(120)
+			for y := by; y < min(h, by+16); y++ {
+				for x := bx; x < min(w, bx+16); x++ {
+					switch kind {
+					case 0:
+						set(x, y, color.NRGBA{uint8(r.Intn(256)), uint8(r.Intn(256)), uint8(r.Intn(256)), 255})
+					case 1:
+						set(x, y, color.NRGBA{clamp(float64(flat.R) + float64((x-bx)*amp/16)), flat.G, clamp(float64(flat.B) - float64((y-by)*amp/16)), 255})
+					default:
+						if (x/2+y/2)%2 == 0 {
+							set(x, y, color.NRGBA{clamp(float64(flat.R) + float64(amp)), clamp(float64(flat.G) - float64(amp)), flat.B, 255})
+						}
+					}
+				}
+			}
+		}
 	case class == "multiband":
 		// (not in Classes; used by targeted families) several flat horizontal bands of different
 		// colours between noise: many near-identical entropy tiles per band, so histogram clusters
